@@ -573,8 +573,10 @@ Proof.
     wrapc (SWhile p c b) (visit_whileG fx c (pos b) (anG fx b)). apply cok_while; [apply IHb; exact Hnb | apply pos_in_keys | exact Hp].
   - intros p b IHb c Hn. cbn [keys] in Hn. destruct (NoDup_cons_inv _ _ Hn) as [Hp Hnb].
     wrapc (SDoWhile p b c) (visit_do_whileG fx p c (pos b) (anG fx b)). apply cok_do_while; [apply IHb; exact Hnb | apply pos_in_keys | exact Hp].
-  - intros p c b IHb Hn. cbn [keys] in Hn. destruct (NoDup_cons_inv _ _ Hn) as [Hp Hnb].
-    wrapc (SFor p c b) (visit_forG fx p c (pos b) (anG fx b)). apply cok_for; [apply IHb; exact Hnb | apply pos_in_keys | exact Hp].
+  - intros p i c u b IHb Hn. cbn [keys] in Hn. destruct (NoDup_cons_inv _ _ Hn) as [Hp Hnb].
+    wrapc (SFor p i c u b) (fun x => visit_forG fx p c (pos b) (anG fx b) (visit_oe u (visit_oe i x))).
+    apply (cokc_pre _ _ _ (fun x => visit_oe u (visit_oe i x))); [apply cok_for; [apply IHb; exact Hnb | apply pos_in_keys | exact Hp]|].
+    intros x. rewrite !info_visit_oe. reflexivity.
   - intros p b IHb Hn. cbn [keys] in Hn. destruct (NoDup_cons_inv _ _ Hn) as [Hp Hnb].
     wrapc (SForIn p b) (visit_for_inG fx (pos b) (anG fx b)). apply cok_for_in; [apply IHb; exact Hnb | apply pos_in_keys | exact Hp].
   - intros p b IHb Hn. cbn [keys] in Hn. destruct (NoDup_cons_inv _ _ Hn) as [Hp Hnb].
@@ -751,15 +753,16 @@ Lemma lg_loop s pre b post : loop_shape s = Some (pre, b, post) ->
   forall x, exists y hd, g_lg (anG fx s x) = GStmt (pos s) (dead_now x) (stmt_unreachable s x) :: hd ++ g_lg (anG fx b y).
 Proof.
   intros Hs x.
-  destruct s as [ | | | | | | | | | | | | |p0 c0 b0|p0 b0 c0|p0 c0 b0|p0 b0|p0 b0|p0 g0 fp0 pb0 hb0 b0| | | ]; cbn [loop_shape] in Hs; try discriminate.
+  destruct s as [ | | | | | | | | | | | | |p0 c0 b0|p0 b0 c0|p0 i0 c0 u0 b0|p0 b0|p0 b0|p0 g0 fp0 pb0 hb0 b0| | | ]; cbn [loop_shape] in Hs; try discriminate.
   - injection Hs as _ <- _. change (anG fx (SWhile p0 c0 b0) x) with (wrap (SWhile p0 c0 b0) (visit_whileG fx c0 (pos b0) (anG fx b0)) x).
     rewrite lg_wrap. destruct (lg_while c0 (pos b0) (anG fx b0) (set_unreach (pos (SWhile p0 c0 b0)) (stmt_unreachable (SWhile p0 c0 b0) x) x)) as [y Eq].
     rewrite Eq. eexists. exists []. reflexivity.
   - injection Hs as _ <- _. change (anG fx (SDoWhile p0 b0 c0) x) with (wrap (SDoWhile p0 b0 c0) (visit_do_whileG fx p0 c0 (pos b0) (anG fx b0)) x).
     rewrite lg_wrap, lg_do_while. eexists. exists []. reflexivity.
-  - assert (Hb : b0 = b) by (destruct c0; injection Hs as _ Hb _; exact Hb). subst b.
-    change (anG fx (SFor p0 c0 b0) x) with (wrap (SFor p0 c0 b0) (visit_forG fx p0 c0 (pos b0) (anG fx b0)) x).
-    rewrite lg_wrap. destruct (lg_for p0 c0 (pos b0) (anG fx b0) (set_unreach (pos (SFor p0 c0 b0)) (stmt_unreachable (SFor p0 c0 b0) x) x)) as [y Eq].
+  - injection Hs as _ <- _.
+    change (anG fx (SFor p0 i0 c0 u0 b0) x) with (wrap (SFor p0 i0 c0 u0 b0) (fun y => visit_forG fx p0 c0 (pos b0) (anG fx b0) (visit_oe u0 (visit_oe i0 y))) x).
+    rewrite lg_wrap. cbv beta.
+    destruct (lg_for p0 c0 (pos b0) (anG fx b0) (visit_oe u0 (visit_oe i0 (set_unreach (pos (SFor p0 i0 c0 u0 b0)) (stmt_unreachable (SFor p0 i0 c0 u0 b0) x) x)))) as [y Eq].
     rewrite Eq. eexists. exists []. reflexivity.
   - injection Hs as _ <- _. change (anG fx (SForIn p0 b0) x) with (wrap (SForIn p0 b0) (visit_for_inG fx (pos b0) (anG fx b0)) x).
     rewrite lg_wrap, lg_for_in. eexists. exists []. reflexivity.
